@@ -1062,7 +1062,7 @@ Definition step0 (c : config) (s : state) (l : label) : option state :=
     end
   | LSlsExit i =>
     match get LsAbsent (sls s) i with
-    | LsIdle =>
+    | LsIdle | LsFwd =>
       if ctx_done s then Some (set_listeners s (rls s) (upd (sls s) i LsDone) (sdm_done s) (stm_done s)) else None
     | _ => None
     end
